@@ -36,6 +36,8 @@ var loadedModules []*Module
 
 // Module is one loaded Go module of the repository.
 type Module struct {
+	// wrapCache: wrapper function -> the function it delegates to (nil: none)
+	wrapCache map[*ssa.Function]*ssa.Function
 	Dir     string
 	ModPath string
 	Fset    *token.FileSet
@@ -226,9 +228,108 @@ func (m *Module) lookupFunc(rel, name string) *ssa.Function {
 	if p == nil {
 		return nil
 	}
-	fn := p.Func(name)
+	named := p.Func(name)
+	m.anchor(named) // (the wrapper keeps its name: it is neither duplicated nor spliced)
+	fn := m.unwrap(named)
 	m.anchor(fn)
 	return fn
+}
+
+// unwrap: a function that does nothing but hand its own parameters, in order,
+// to one unexported function of its package and return that function's results
+// is a wrapper; the rules then look at the function that has the body. (Only
+// when the wrapper is that function's only caller.)
+func (m *Module) unwrap(fn *ssa.Function) *ssa.Function {
+	for i := 0; i < 2 && fn != nil; i++ {
+		g := m.wrappedBody(fn)
+		if g == nil {
+			break
+		}
+		fn = g
+	}
+	return fn
+}
+
+func (m *Module) wrappedBody(fn *ssa.Function) *ssa.Function {
+	if fn == nil || len(fn.Blocks) != 1 || fn.Pkg == nil {
+		return nil
+	}
+	if g, ok := m.wrapCache[fn]; ok {
+		return g
+	}
+	if m.wrapCache == nil {
+		m.wrapCache = map[*ssa.Function]*ssa.Function{}
+	}
+	m.wrapCache[fn] = nil
+	var call *ssa.Call
+	var ret *ssa.Return
+	extracts := map[ssa.Value]int{}
+	for _, in := range fn.Blocks[0].Instrs {
+		switch x := in.(type) {
+		case *ssa.DebugRef:
+		case *ssa.Call:
+			if call != nil {
+				return nil
+			}
+			call = x
+		case *ssa.Extract:
+			if call == nil || x.Tuple != ssa.Value(call) {
+				return nil
+			}
+			extracts[x] = x.Index
+		case *ssa.Return:
+			ret = x
+		default:
+			return nil
+		}
+	}
+	if call == nil || ret == nil || call.Common().IsInvoke() {
+		return nil
+	}
+	g := call.Common().StaticCallee()
+	if g == nil || g == fn || g.Pkg != fn.Pkg || token.IsExported(g.Name()) || len(g.Blocks) == 0 || g.Parent() != nil {
+		return nil
+	}
+	args := call.Common().Args
+	if len(args) != len(fn.Params) {
+		return nil
+	}
+	for i, a := range args {
+		if a != ssa.Value(fn.Params[i]) {
+			return nil
+		}
+	}
+	switch len(ret.Results) {
+	case 0:
+	case 1:
+		if ret.Results[0] != ssa.Value(call) {
+			return nil
+		}
+	default:
+		for i, r := range ret.Results {
+			if k, ok := extracts[r]; !ok || k != i {
+				return nil
+			}
+		}
+	}
+	// the wrapper is the only caller, and nothing else mentions the function
+	uses := 0
+	for _, f := range m.Funcs {
+		for _, b := range f.Blocks {
+			for _, in := range b.Instrs {
+				for _, op := range in.Operands(nil) {
+					if *op == ssa.Value(g) {
+						uses++
+					}
+				}
+			}
+		}
+	}
+	if uses != 1 {
+		return nil
+	}
+	m.wrapCache[fn] = g
+	return g
 }
 
 func (m *Module) lookupType(rel, name string) *types.Named {
@@ -258,11 +359,15 @@ func (m *Module) lookupMethod(rel, typ, name string) *ssa.Function {
 				fn := m.Prog.MethodValue(sel)
 				if fn != nil && fn.Synthetic == "" {
 					m.anchor(fn)
+					fn = m.unwrap(fn)
+					m.anchor(fn)
 					return fn
 				}
 				// wrapper around a value-receiver method: find the declared one
 				if f, ok := sel.Obj().(*types.Func); ok {
 					if d := m.Prog.FuncValue(f); d != nil {
+						m.anchor(d)
+						d = m.unwrap(d)
 						m.anchor(d)
 						return d
 					}
